@@ -206,7 +206,8 @@ func c20Run(r *mon.Run) {
 		return true
 	})
 	// exhaustive literals: strings with content of <= L atoms
-	strAlpha := []string{"a", ".", "e", "E", "1", "-", "t", "n", " ", `\"`, `\\`, "é", "{", "["}
+	// incl. bytes that are not UTF-8 (the scanners accept any byte >= 0x20 inside a string), an astral character and DEL
+	strAlpha := []string{"a", ".", "e", "E", "1", "-", "t", "n", " ", `\"`, `\\`, "é", "{", "[", "\xff", "\xe9", "\xed\xa0\x80", "\xf0\x9f\x98", "😀", "\x7f"}
 	slen := r.Pick(4, 5)
 	gen.TokensSharded(strAlpha, slen, r.Shard, mon.LogicalShards, func(s []byte, n int) bool {
 		if n == 1 && r.Shard != 0 {
@@ -286,7 +287,7 @@ func init() {
 				c20Tables(r)
 			}
 		},
-		Rule:               "tables: IsValidType on the 16 documented names and 9 near-miss spellings of each; IsEqualSoft on all 18x18 ordered pairs (documented families, symmetry, reflexivity, undefined); token-type agreement for every json.Type. literals: every RFC 8259 number over {0 1 5 - + . e E} up to length 6 (quick) / 8 (thorough), every string literal whose content is <= 4 / 5 atoms from 14 (letters, dot, e, digits, escapes, brackets), true/false/null/{/[, plus random numbers and strings; each literal is guessed 24 times (map-order sampling) and compared with json.Guess(..).JsonType(). distinct_nontrivial = distinct literals, pairs and probes (hashed).",
+		Rule:               "tables: IsValidType on the 16 documented names and 9 near-miss spellings of each; IsEqualSoft on all 18x18 ordered pairs (documented families, symmetry, reflexivity, undefined); token-type agreement for every json.Type. literals: every RFC 8259 number over {0 1 5 - + . e E} up to length 6 (quick) / 8 (thorough), every string literal whose content is <= 4 / 5 atoms from 20 (letters, dot, e, digits, escapes, brackets, non-UTF-8 bytes, an astral character, DEL), true/false/null/{/[, plus random numbers and strings; each literal is guessed 24 times (map-order sampling) and compared with json.Guess(..).JsonType(). distinct_nontrivial = distinct literals, pairs and probes (hashed).",
 		MinNontrivialQuick: 20000, MinNontrivialThorough: 200000,
 		Assumptions: []string{"documented vocabulary and families typed in from the IsEqualSoft doc comment and the README type list", "IsValidType(\"comment\") not judged (internal type name)",
 			"encoding/json.Valid decides which enumerated number strings are literals", "a two-way map-order dependence escapes 24 repetitions with probability 2^-23 per literal"},
